@@ -48,7 +48,7 @@ ASSUMPTIONS = [
     "clusters of short flags, --, negative numbers as arguments, only the first run of positionals; an explicit value `--` (-p=--) and "
     "non-ASCII digits / whitespace in -n / -p values are outside the model",
     "text is valid Unicode (scalar values); lone surrogates are exercised for the tie only, never adjacent high+low",
-    "offset k (reader API) is exercised for valid record indices (-len <= k < len, and 0 on an empty log); hr --head / --tail also with a "
+    "offset k (reader API, forward and with reverse=True) is exercised for valid record indices (-len <= k < len, and 0 on an empty log); hr --head / --tail also with a "
     "negative -n (ValueError / IndexError, exit 1, as the code does)",
     "tags are lists of str (or absent) on the writer side; on the reader side any JSON value whose effect on str(record) is determined "
     "(null, string, list of strings, numbers, booleans); nested arrays / objects / non-integral floats where a member is interpreted are "
